@@ -51,6 +51,7 @@ contract(f"{VC}:VBSClusteringManager.update",
                       breakup_after_warning="implies(old(is_leader(self)) and old(self._cluster.breakup_started) is not None and now() - old(self._cluster.breakup_started) >= BREAKUP_WARNING_S, self._state is VBSState.VRU_ACTIVE_STANDALONE and transmits(self))",
                       breakup_warning_lasts_3s="implies(old(is_leader(self)) and (old(self._cluster.breakup_started) is None or now() - old(self._cluster.breakup_started) < BREAKUP_WARNING_S), is_leader(self))",
                       join_notification_lasts_3s="implies(old(self._state is VBSState.VRU_ACTIVE_STANDALONE) and old(self._join_substate is _JoinSubstate.NOTIFY), (self._join_substate is _JoinSubstate.WAITING) == (now() - old(self._join_started) >= JOIN_NOTIFICATION_S))",
+                      join_wait_starts_when_notification_ends="implies(old(self._state is VBSState.VRU_ACTIVE_STANDALONE) and old(self._join_substate is _JoinSubstate.NOTIFY) and self._join_substate is _JoinSubstate.WAITING, self._join_started == now())",
                       join_wait_fails_after_half_second="implies(old(self._state is VBSState.VRU_ACTIVE_STANDALONE) and old(self._join_substate is _JoinSubstate.WAITING), (self._join_substate is _JoinSubstate.FAILED) == (now() - old(self._join_started) >= JOIN_SUCCESS_S))",
                       leave_notification_lasts_1s="implies(old(self._state is VBSState.VRU_ACTIVE_STANDALONE) and old(self._leave_substate is _LeaveSubstate.NOTIFY), (self._leave_substate is _LeaveSubstate.NONE) == (now() - old(self._leave_started) >= LEAVE_NOTIFICATION_S))",
                       never_silenced_by_update="implies(old(transmits(self)) and not old(is_passive(self)), transmits(self))"), **S)
@@ -76,6 +77,7 @@ contract(f"{VC}:VBSClusteringManager.on_received_vam", shapes={"self": MGR, "vam
          ensures=dict(INV,
                       join_completes_on_leader_vam="implies(old(self._state is VBSState.VRU_ACTIVE_STANDALONE) and old(self._join_substate is _JoinSubstate.WAITING) and advertises_cluster(vam, old(self._join_target_cluster_id)) and not has_breakup_info(vam), is_passive(self) and self._joined_cluster_id == old(self._join_target_cluster_id) and self._leader_station_id == vam['header']['stationId'])",
                       leader_vam_rearms_timer="implies(old(is_passive(self)) and is_passive(self) and vam['header']['stationId'] == old(self._leader_station_id), self._last_leader_vam_time == now())",
+                      only_the_leader_rearms_the_timer="implies(old(is_passive(self)) and is_passive(self) and vam['header']['stationId'] != old(self._leader_station_id), self._last_leader_vam_time == old(self._last_leader_vam_time))",
                       breakup_by_leader_resumes="implies(old(is_passive(self)) and vam['header']['stationId'] == old(self._leader_station_id) and announces_breakup(vam), self._state is VBSState.VRU_ACTIVE_STANDALONE and transmits(self))"),
          **S)
 
